@@ -130,12 +130,14 @@ Proof.
 Qed.
 
 (** ** C04: closedness of the toy parts, the orphan object-libs witness, a fixed-point example *)
-Theorem toy_closed : sig_closed toy_sig.
+Theorem toy_closed0 : sig_closed0 toy_sig.
 Proof.
   constructor; simpl; try (intros c x _; exact I); try (intros; exact I).
   intros i H. apply nodupb_spec. unfold toy_info_ok in H. unfold guides_of. simpl.
   destruct (i_guides i); [exact H|reflexivity].
 Qed.
+Theorem toy_closed : sig_closed toy_sig.
+Proof. constructor; [exact toy_closed0|intros c x _; exact I|intros; exact I]. Qed.
 
 (** regression (1c81824): a tree with [public.objectLibs] in lib.plist and no fontinfo.plist is
     loaded WITHOUT the key, and the loaded font is saved *)
